@@ -9,5 +9,6 @@ mkdir -p out replays evidence
 harness/target/debug/vh consts > out/Consts.lean.new && {
   cmp -s out/Consts.lean.new lean/VirtioVerif/Generated/Consts.lean || cp out/Consts.lean.new lean/VirtioVerif/Generated/Consts.lean; }
 python3 tools/extract.py /repo lean/VirtioVerif/Generated
+python3 tools/extract_publish.py /repo lean/VirtioVerif/Generated
 (cd lean && lake build 2>&1 | tail -3)
 echo setup: ok
